@@ -98,6 +98,8 @@ func judgeForCase(c forCase, rec *hx.Rec) string {
 		}
 		add(i.Sequential, "sequential_blocks")
 		add(i.EquInsideBlock, "equ_defined_inside_a_block")
+		add(i.LabelledBodyStartsWithSilentFor, "labelled_body_starts_with_any_for")
+		add(i.EmptyBody, "empty_body")
 		add(i.Nested, "nested")
 		add(i.ZeroCount, "zero_count")
 		add(i.EquCount, "equ_count")
